@@ -2,10 +2,12 @@ import Mochi.Driver.Util
 import Mochi.Driver.Varint
 import Mochi.Driver.Topics
 import Mochi.Driver.Keepalive
+import Mochi.Driver.Ledger
 open Mochi.Driver
 
 structure DState where
   topics : TState := {}
+  ledger : LState := {}
 
 /-- input line: `op args…<TAB>implementation output`;
     answer line: `model output<TAB>spec verdict<TAB>signature`; unknown op => `bad-op` -/
@@ -24,7 +26,10 @@ def answer (st : DState) (line : String) : DState × String :=
     | none =>
       match topicsOp st.topics impl ws with
       | some (t', r) => ({ st with topics := t' }, fmt r)
-      | none => (st, "bad-op")
+      | none =>
+        match ledgerOp st.ledger impl ws with
+        | some (l', r) => ({ st with ledger := l' }, fmt r)
+        | none => (st, "bad-op")
 
 partial def loop (h : IO.FS.Stream) (out : IO.FS.Stream) (st : DState) : IO Unit := do
   let line ← h.getLine
